@@ -748,7 +748,7 @@ def close(a, b, atol=1e-9, rtol=1e-9):
     return bool(r <= 1.0), r
 
 
-def compare_stream_to_reference(name, st, ref_st, expected_steps, atol=1e-9, rtol=1e-9):
+def compare_stream_to_reference(name, st, ref_st, expected_steps, atol=1e-9, rtol=1e-9, skip=()):
     """One stream of one file against the same stream of the cadence-1 reference run.
     `steps` must equal expected_steps exactly.  Every row is then judged against the reference row of
     the step it is LABELLED with (so a wrong row set and wrong values are reported separately); a
@@ -769,6 +769,8 @@ def compare_stream_to_reference(name, st, ref_st, expected_steps, atol=1e-9, rto
         else:
             live.append((j, s))
     for p, arr in st["rows"].items():
+        if p.startswith(tuple(skip)) if skip else False:
+            continue
         if arr.shape[0] != len(steps):
             probs.append({"what": "row-count", "stream": name, "dataset": p, "rows": int(arr.shape[0]),
                           "steps_len": len(steps)})
@@ -789,7 +791,7 @@ def compare_stream_to_reference(name, st, ref_st, expected_steps, atol=1e-9, rto
             if not ok:
                 probs.append({"what": "value", "stream": name, "dataset": p, "row": j, "step": int(s), "ratio": r})
     for p in ref_st["rows"]:
-        if p not in st["rows"]:
+        if p not in st["rows"] and not (skip and p.startswith(tuple(skip))):
             probs.append({"what": "dataset-missing", "stream": name, "dataset": p})
     return probs, worst, bitwise, nrows
 
